@@ -33,6 +33,16 @@ PROPS = {
         "trusted_base": ["harness/src/prog.rs, s_authz.rs", "lean/Codec.lean, lean/Driver.lean", "Model/Intern.lean traversal order (checked by the stream, not by a theorem)"],
         "assumptions": ["error-free programs under non-binding limits for the check theorems", "wall-clock limit not exercised (max_time = 1h)"],
     },
+    "C03": {
+        "module": "BiscuitModel.Props.C03",
+        "streams": ["atten"],
+        "level_text": "Lean 4 theorems over the inductive derivability relation of C05 (which the engine computes exactly, run_exact): derives_mono (a block never removes a fact), derives_restrict (every pair derivable with the new block whose origin avoids it was derivable without it: base facts of the block carry its id, its rules stamp its id, old rules cannot see it), visible_facts_unchanged (for every trusted set not containing the new block the visible world is identical), old_scopes_exclude_new (no scope of an earlier block or of the authorizer reaches a newly appended block unless it names a key registered for it; previous stops at the element's own block). Together with C04's check/policy theorems (verdicts are functions of the visible facts) this is the attenuation argument; the end-to-end corollary over the executable authorize is listed as an open obligation. Tie: every generated (token, appended block, authorizer) is authorized with and without the block on the implementation and on the compiled model, full outcomes compared; and an implementation-only oracle checks the property itself (accepted extended => accepted original by the same policy; failed checks only grow) on every case where nobody names the new block's key.",
+        "level_note": "Trusted: Lean kernel (standard axioms), harness generator reach, JSON glue. Stated for evaluations without expression errors and non-binding limits (the property's quantifier). Open: attenuation_monotone as a single theorem over Model/Authorizer.authorize (composition of the proved lemmas).",
+        "rule": "atten stream: seeded tokens of 1-3 blocks plus one appended first- or third-party block (facts/rules over the same predicates as the authority, scopes incl. previous, keys shared with earlier blocks), generated authorizers; both tokens authorized on both sides; non-trivial = both outcomes are decisions (ok/nomatch/unauth); distinct = distinct case JSON",
+        "trusted_base": ["harness/src/prog.rs, s_atten.rs, s_authz.rs", "lean/Codec.lean, lean/Driver.lean", "tools/props.py oracle_atten (used only to search for a failing input)"],
+        "assumptions": ["error-free programs under non-binding limits"],
+        "open_obligations": ["attenuation_monotone: authorize (blocks ++ [b]) az = ok i -> authorize blocks az = ok i, as one theorem over the executable model"],
+    },
 }
 
 
@@ -140,7 +150,20 @@ def cmp_authz(case, impl, model):
     return None
 
 
-COMPARATORS = {"expr": cmp_default, "engine": cmp_engine, "authz": cmp_authz}
+def cmp_atten(case, impl, model):
+    if "driver_error" in model:
+        return "driver error: %s" % model["driver_error"]
+    skipped = False
+    for side in ("base", "ext"):
+        v = cmp_authz(case, impl[side], model[side])
+        if v == "skip":
+            skipped = True
+        elif v is not None:
+            return "%s token: %s" % (side, v)
+    return "skip" if skipped else None
+
+
+COMPARATORS = {"expr": cmp_default, "engine": cmp_engine, "authz": cmp_authz, "atten": cmp_atten}
 
 
 def nontrivial(stream, case, impl):
@@ -148,6 +171,8 @@ def nontrivial(stream, case, impl):
         return impl.get("err") != "InvalidStack"
     if stream == "authz":
         return impl.get("r") in ("ok", "nomatch", "unauth")
+    if stream == "atten":
+        return impl["ext"].get("r") in ("ok", "nomatch", "unauth") and impl["base"].get("r") in ("ok", "nomatch", "unauth")
     if stream == "engine":
         return impl.get("r") == "ok" and impl.get("iterations", 0) >= 1
     return True
@@ -160,7 +185,47 @@ def oracle_expr(case, impl):
     return None
 
 
-ORACLES = {("C06", "expr"): oracle_expr}
+def _scopes_of(part):
+    out = list(part.get("sc", []))
+    for r in part.get("rules", []):
+        out += r.get("sc", [])
+    for c in part.get("checks", []):
+        for q in c["q"]:
+            out += q.get("sc", [])
+    for p in part.get("policies", []):
+        for q in p["q"]:
+            out += q.get("sc", [])
+    return out
+
+
+def oracle_atten(case, impl):
+    """C03 on the implementation alone: if nobody trusts the new block's key, acceptance of the
+    extended token implies acceptance of the original by the same policy, and failed checks only grow"""
+    k = case["extension"].get("ext")
+    if k is not None:
+        named = [s for part in case["blocks"] + [case["az"]] for s in _scopes_of(part)
+                 if isinstance(s, dict) and s.get("key") == k]
+        if named:
+            return None
+    b, e = impl["base"], impl["ext"]
+    if "panic" in b or "panic" in e:
+        return "panic"
+    decided = ("ok", "nomatch", "unauth")
+    if b.get("r") not in decided or e.get("r") not in decided:
+        return None
+    if e["r"] == "ok" and not (b["r"] == "ok" and b["p"] == e["p"]):
+        return "extended token accepted (policy %s) but original token is %s" % (e.get("p"), json.dumps({k: b.get(k) for k in ("r", "p", "failed")}))
+    fb = [json.dumps(x) for x in b.get("failed", [])]
+    fe = [json.dumps(x) for x in e.get("failed", [])]
+    gone = [x for x in fb if x not in fe]
+    if gone:
+        return "checks %s failed on the original token but pass on the extended one" % gone
+    if (b.get("r"), b.get("p"), b.get("pk")) != (e.get("r"), e.get("p"), e.get("pk")) and not (b["r"] == "ok" and e["r"] == "unauth" and e.get("pk") == "allow" and e.get("p") == b.get("p")):
+        return "matched policy changed: original %s/%s/%s extended %s/%s/%s" % (b.get("r"), b.get("pk"), b.get("p"), e.get("r"), e.get("pk"), e.get("p"))
+    return None
+
+
+ORACLES = {("C06", "expr"): oracle_expr, ("C03", "atten"): oracle_atten}
 
 
 def signature(d):
